@@ -95,6 +95,30 @@ class Exec:
 
             self.ip.after.append(after)
             self.ip.before.append(before)
+            live_txs: List[Any] = []
+            live_viol: List[Tuple[str, str]] = []
+            import datashard.transaction as trm
+            orig_begin = trm.Transaction.begin
+
+            def begin(self_: Any) -> Any:
+                r = orig_begin(self_)
+                live_txs.append(self_)
+                return r
+
+            trm.Transaction.begin = begin  # type: ignore
+
+            def gc_delete_monitor(op: Any) -> None:
+                # the collector must never delete a file registered by a transaction that is still live
+                if op.phase == "before" and op.name == "local.delete_file":
+                    me = sched.me()
+                    if me is not None and me.name == "G" and op.path:
+                        p = op.path.lstrip("/")
+                        for tx in live_txs:
+                            if tx.is_active() and p in [w.lstrip("/") for w in tx._written_files]:
+                                live_viol.append(("gc-deleted-live-transaction-file",
+                                                  f"collector deletes {p} which a still-active transaction has written"))
+
+            self.ip.before.append(gc_delete_monitor)
             try:
                 handles = []
                 for i, kind in enumerate(case["txs"]):
@@ -138,7 +162,9 @@ class Exec:
             finally:
                 self.ip.after.remove(after)
                 self.ip.before.remove(before)
-            viol: List[Tuple[str, str]] = []
+                self.ip.before.remove(gc_delete_monitor)
+                trm.Transaction.begin = orig_begin  # type: ignore
+            viol: List[Tuple[str, str]] = list(live_viol[:1])
             tv = reader.read_table(inst.blobs())
             if outcome == "ok":
                 if tv.meta is None:
@@ -191,6 +217,10 @@ class C06(Check):
         for kind in k2:
             for sh in range(8):
                 yield {"mode": "dfs", "txs": [kind], "k": 2, "shard": sh, "nshards": 8}
+        for pair in ([["commit_open", "append"]] if tier == "quick" else [["commit_open", "append"], ["commit_open", "delete_append"], ["multi", "append"]]):
+            nsh = 16
+            for sh in range(nsh):
+                yield {"mode": "dfs", "txs": pair, "k": 1, "shard": sh, "nshards": nsh, "max_runs": 400 if tier == "quick" else 20000}
         if tier == "thorough":
             for kind in ["commit_open", "delete_append"]:
                 for sh in range(32):
